@@ -95,7 +95,14 @@ func (r *vfStubReader) Read(p []byte) (int, error) {
 	if r.pos >= len(r.out) {
 		return 0, io.EOF
 	}
-	n := copy(p, r.out[r.pos:])
+	avail := r.out[r.pos:]
+	if r.pos == 0 && len(avail) > 1 && len(p) >= len(avail) && nd.Bool("decompressor-delivers-a-short-first-read") {
+		// io.Reader: a Read may return fewer bytes than asked for without an error (the real
+		// decompressor does so at each of its 64 KiB block boundaries); only io.EOF ends the stream
+		avail = avail[:len(avail)/2]
+		nd.Cover("short-read")
+	}
+	n := copy(p, avail)
 	r.pos += n
 	return n, nil
 }
